@@ -267,11 +267,38 @@ def child_main():
     json.dump(twin_export(subjects), sys.stdout)
 
 
+def sut_raised(ex):
+    """'ExcType: message at panqec/file.py:line' if the exception comes out of
+    the library under test, else None (then it is the harness's own)."""
+    import traceback
+    tb = traceback.extract_tb(ex.__traceback__)
+    where = [f for f in tb if '/panqec/' in f.filename and '/site-packages/' not in f.filename]
+    if not where:
+        return None
+    return (f'{type(ex).__name__}: {str(ex)[:80]} at panqec/'
+            f'{where[-1].filename.split("/panqec/")[-1]}:{where[-1].lineno}')
+
+
 def run(tier):
     t0 = time.time()
     rng = np.random.default_rng(common.seed() + 202)
     v = common.Verdict('C02')
     work = common.scratch_dir('c02')
+
+    def projected(code_maker, label, **kw_):
+        """project_c02 of a code; an exception raised inside the library is a
+        rejected observation (none of the modelled calls may raise)."""
+        try:
+            return project_c02(code_maker(), rng, **kw_)
+        except common.MachineryError:
+            raise
+        except Exception as ex:      # noqa
+            msg = sut_raised(ex)
+            if msg is None:
+                raise
+            v.reject(f'C02:{label.split("(")[0]}:raised:{type(ex).__name__}',
+                     {'label': label, 'raised': msg})
+            return None
 
     # (a) library codes
     dom = c01_domain(tier)
@@ -279,8 +306,9 @@ def run(tier):
     meta = {}
     for name, size, dname, kw in dom:
         lab = codes.label(name, size, dname, kw)
-        code = codes.build(name, size, dname, kw)
-        r = project_c02(code, rng)
+        r = projected(lambda: codes.build(name, size, dname, kw), lab)
+        if r is None:
+            continue
         r['id'] = len(recs)
         r['_cost'] = (r['n'] + 1) * (len(r['stabs']) + 1)
         meta[r['id']] = ('library', lab)
@@ -298,7 +326,7 @@ def run(tier):
         for size in dict.fromkeys([ss[0], ss[-1]]):
             for (dname, kw) in dict.fromkeys((d, tuple(sorted(k.items()))) for d, k in vs):
                 hist_subjects.append((name, size, dname, dict(kw), vs))
-    for name, size, dname, kw, vs in hist_subjects:
+    def with_history(name, size, dname, kw, vs):
         code = codes.build(name, size)
         for prop in ('stabilizer_matrix', 'x_indices', 'z_indices', 'is_css', 'logicals_x',
                      'logicals_z', 'qubit_index', 'stabilizer_index', 'd', 'stabilizer_types'):
@@ -311,7 +339,13 @@ def run(tier):
         code.deform(other[0], **other[1])
         code.is_css, code.stabilizer_matrix
         code.deform(dname, **kw)
-        r = project_c02(code, rng)
+        return code
+
+    for name, size, dname, kw, vs in hist_subjects:
+        r = projected(lambda: with_history(name, size, dname, kw, vs),
+                      codes.label(name, size, dname, kw) + '#after-history')
+        if r is None:
+            continue
         r['id'] = len(recs)
         r['_cost'] = (r['n'] + 1) * (len(r['stabs']) + 1)
         meta[r['id']] = ('library', codes.label(name, size, dname, kw) + '#after-history')
@@ -355,8 +389,10 @@ def run(tier):
     # (b) user-defined codes from the model
     defs, model = user_defs(tier, work)
     for d in defs:
-        code = make_user_code(d, rng)
-        r = project_c02(code, rng, n_conv=3, n_synd=4)
+        r = projected(lambda: make_user_code(d, rng), 'user-defined(' + json.dumps(d)[:60],
+                      n_conv=3, n_synd=4)
+        if r is None:
+            continue
         r['id'] = len(recs)
         r['_cost'] = 4
         meta[r['id']] = ('user', json.dumps(d))
